@@ -266,12 +266,36 @@ class Ctx(object):
                 self.extra.setdefault(k, v)
 
 
+DEFAULT_UNITS = {"energy": "1/fs", "frequency": "1/fs", "dipolemoment": "Debye",
+                 "temperature": "Kelvin", "length": "A"}
+
+
+def reset_globals():
+    """State of the code under test that outlives a call (Manager singleton):
+    reset at the top of every case so that a leak in one case cannot change
+    the verdict of the next (leaks themselves are what C04/C05 look for,
+    inside one case)."""
+    from quantarhei import Manager
+    m = Manager()
+    m.current_units = dict(DEFAULT_UNITS)
+    m._saved_units = {}
+    m._in_energy_units_context = False
+    m._in_eu_count = 0
+    m._in_eigenbasis_of_context = False
+    m._in_eb_count = 0
+    m.basis_stack = [0]
+    m.basis_transformations = [1]
+    m.basis_registered = {}
+    m.current_basis_operator = None
+
+
 def evaluate(mod, case, ctx):
     """Run check_case on one case; return the list of violations.
     Exceptions escaping check_case are harness errors (the check modules
     convert exceptions raised by the code under test into violations
     themselves, clause by clause)."""
     ctx.begin()
+    reset_globals()
     with quiet():
         mod.check_case(case, ctx)
     return ctx.end(case)
